@@ -1371,6 +1371,13 @@ Plan generate(const std::string& mode, uint64_t seed, uint64_t run) {
     static const char* kj[] = {"cptr", "cptr_n", "istream", "custom", "astream", "astring", "flash", "variant", "mptr", "std"};
     op.set("kinds", mp ? ks[r.below(8)] : kj[r.below(10)]).set("chunks", chunkSpec(r));
     op.set("prefixes", "all").set("top", "container");
+    // a filter changes which code reads the bytes (values are skipped, not stored) but not how an input that
+    // ends too early is classified
+    std::string filt;
+    if (r.chance(1, 3)) {
+      filt = toText(genFilter(r, &v, 0));
+      op.set("filter", filt);
+    }
     // a leading-whitespace-free JSON text: the first byte belongs to the value
     p.ops.push_back(op);
     // and the complete input once, with its value
@@ -1380,6 +1387,8 @@ Plan generate(const std::string& mode, uint64_t seed, uint64_t run) {
     if (op.has("nl"))
       full.set("nl", op.str("nl"));
     full.set("kinds", op.str("kinds")).set("expect", "Ok").set("value", toText(mp ? v : jsonImage(v, true))).set("loose", mp ? 0 : 1);
+    if (!filt.empty())
+      full.set("filter", filt);
     if (!mp && hasNul(v))
       full.set("nounicode_skip", 1);
     p.ops.push_back(full);
